@@ -7,7 +7,7 @@
    user_tables = (gen, vsc, trafo, dcline, b2b_vsc) rows with all cell contents; clean = nothing is tracked as
    auxiliary (the state between calculations). *)
 From Coq Require Import ZArith List Bool.
-From PPV Require Import C08.Model C08.Proofs.
+From PPV Require Import C08.Model C08.Proofs C08.ProofsX.
 Import ListNotations.
 Open Scope Z_scope.
 
@@ -88,3 +88,72 @@ Example C08_nonvacuous :
   snd (fst (exec (pl_sc_1ph net_nv) (Some 7%nat) true net_nv)) = Raised.
 Proof. exact nonvacuous. Qed.
 Print Assumptions C08_nonvacuous.
+
+(* ---- state estimation and contingency analysis (stage machines of StateEstimation.estimate and run_contingency).
+   xnet = element tables of the pipelines + the switch impedance column(s) + all in_service cells.
+   xtables_eq s0 s : gen/vsc/trafo/dcline/b2b_vsc rows, z_ohm, presence of z_ohm_ori, every in_service cell and the
+   row sets of s are those of s0, and nothing is tracked as auxiliary.
+   k counts atomic operations INCLUDING those of the nested power flows (every _get_bus_ppc_mapping of the bb-switch
+   substitution and every outage case runs a complete power flow with its own auxiliary elements and try statement);
+   exn = the injected fault is an Exception (false: BaseException only, e.g. KeyboardInterrupt). *)
+
+(* FULL: estimate with any fuse_buses_with_bb_switch argument (bb: substitution active; badarg: invalid string), any
+   sequence of impedance writes, any verdict of the nested power flows and of the solver, any crash point, any kind of
+   fault: try/finally gives the switch impedances back and nothing else is touched *)
+Theorem C08_estimate_preserved : forall exn bb badarg rounds conv_pf success k s,
+  clean (x_net s) = true -> sw_ori s = None ->
+  xtables_eq s (fst (fst (run_estimate exn bb badarg rounds conv_pf success k s))).
+Proof. exact estimate_restores. Qed.
+Print Assumptions C08_estimate_preserved.
+
+(* the guard is needed: a user column called z_ohm_ori is overwritten and dropped (helper-column name collision) *)
+Theorem C08_estimate_user_ori_column_refuted :
+  exists s, clean (x_net s) = true /\
+    sw_ori (fst (fst (run_estimate true true false [] true true None s))) <> sw_ori s.
+Proof. exact estimate_user_ori_column_refuted. Qed.
+Print Assumptions C08_estimate_user_ori_column_refuted.
+
+(* the code before the repair (reset only on normal completion) violates the statement *)
+Theorem C08_estimate_old_refuted :
+  exists s k, clean (x_net s) = true /\ sw_ori s = None /\
+    sw_z (fst (fst (run_estimate_old true true false [([true], None)] true true k s))) <> sw_z s.
+Proof. exact estimate_old_refuted. Qed.
+Print Assumptions C08_estimate_old_refuted.
+
+(* FULL for the code as it is (outage assignment inside the try statement, CONTINGENCY_OUTAGE_INSIDE_TRY = true): every
+   outage list (absent indices, elements already out of service, repeated elements), every evaluation function among the
+   modelled calculations, every verdict per case, raise_errors on/off, every crash point - also directly behind the outage
+   assignment (window) -, Exception or BaseException: all in_service cells and all tables are given back *)
+Theorem C08_contingency_preserved : forall exn window raise_errors c cs conv0 k s,
+  clean (x_net s) = true ->
+  xtables_eq s (fst (fst (run_contingency exn window CONTINGENCY_OUTAGE_INSIDE_TRY raise_errors c cs conv0 k s))).
+Proof. exact contingency_restores_full. Qed.
+Print Assumptions C08_contingency_preserved.
+
+(* the layout before the repair (assignment in front of the try statement): only the crash points at which a statement
+   raises are safe ... *)
+Theorem C08_contingency_old_preserved_partial : forall exn raise_errors c cs conv0 k s,
+  clean (x_net s) = true ->
+  xtables_eq s (fst (fst (run_contingency_old exn false raise_errors c cs conv0 k s))).
+Proof. intros. apply contingency_restores; auto. Qed.
+Print Assumptions C08_contingency_old_preserved_partial.
+
+(* ... a fault between the assignment and the try statement left the element out of service (regression witness) *)
+Theorem C08_contingency_old_window_refuted :
+  exists s cs k, clean (x_net s) = true /\
+    serv (fst (fst (run_contingency_old false true false CPf cs true k s))) 0%nat 1 <> serv s 0%nat 1.
+Proof. exact contingency_window_refuted. Qed.
+Print Assumptions C08_contingency_old_window_refuted.
+
+Example C08_nonvacuous_estimate_contingency :
+  (let r := run_estimate false true false [([true; false], Some [true; false]); ([false; true], None)] true true (Some 30%nat)
+              {| x_net := net_nv; sw_z := Some [0; 0]; sw_ori := None; serv := fun _ _ => true; has := fun _ _ => true |} in
+   oc3 r = XRaised false /\ sw_z (st3 r) = Some [0; 0] /\ sw_ori (st3 r) = None /\ user_tables (x_net (st3 r)) = user_tables net_nv) /\
+  sw_z (st3 (xrun_ops true (est_body true false false [([true; false], None)] true true) None
+              {| x_net := net0; sw_z := Some [0; 0]; sw_ori := None; serv := fun _ _ => true; has := fun _ _ => true |}))
+    = Some [Z_IMP; 0] /\
+  (let r := run_contingency false false false false CPf [(0%nat, 0, true); (0%nat, 1, false); (0%nat, 2, true)] true (Some 12%nat) s_line in
+   oc3 r = XRaised false /\ forall i, In i [0; 1; 2] -> serv (st3 r) 0%nat i = true) /\
+  oc3 (run_contingency true false false false CPf [(0%nat, 0, true); (0%nat, 1, false); (0%nat, 2, true)] true (Some 12%nat) s_line) = XDone.
+Proof. exact nonvacuous_x. Qed.
+Print Assumptions C08_nonvacuous_estimate_contingency.
